@@ -9,7 +9,7 @@ BAD=""
 for t in $FAILED; do
   ok=0
   for k in 1 2 3 4 5; do
-    if ctest --test-dir $WT/_build -R "^$t\$" --timeout 900 >/dev/null 2>&1; then ok=1; break; fi
+    if /verif/tools/isolated.sh ctest --test-dir $WT/_build -R "^$t\$" --timeout 900 >/dev/null 2>&1; then ok=1; break; fi
     sleep 3
   done
   [ $ok = 1 ] || BAD="$BAD $t"
